@@ -57,6 +57,21 @@ var c15Positions = map[string]func(g config.PluginConfig, with bool) []config.Pl
 		}
 		return []config.PluginConfig{h}
 	},
+	"gzip,logging": func(g config.PluginConfig, with bool) []config.PluginConfig {
+		if with {
+			return []config.PluginConfig{g, {Name: "logging"}}
+		}
+		return []config.PluginConfig{{Name: "logging"}}
+	},
+	// the order of the shipped configuration
+	"logging,size_limit,gzip,headers": func(g config.PluginConfig, with bool) []config.PluginConfig {
+		h := config.PluginConfig{Name: "headers", Config: map[string]interface{}{"set": map[string]interface{}{"X-App": "Helios"}}}
+		sl := sizeLimitCfg(64<<20, 64<<20)
+		if with {
+			return []config.PluginConfig{{Name: "logging"}, sl, g, h}
+		}
+		return []config.PluginConfig{{Name: "logging"}, sl, h}
+	},
 	"size_limit,gzip": func(g config.PluginConfig, with bool) []config.PluginConfig {
 		sl := sizeLimitCfg(64<<20, 64<<20)
 		if with {
@@ -246,6 +261,11 @@ func c15Judge(c c15Case, with, without wire.Response, plain []byte, pre bool) (s
 		return "tool", "reference exchange failed: " + without.Err
 	}
 	wantStatus := without.Status
+	// the backend's status is what the origin program said, not only what the same chain without
+	// gzip makes of it (a defect in a plugin both chains share would cancel out)
+	if origin := map[bool]int{true: 200, false: c.Status}[c.Status == 0]; without.Status != origin && with.Status != origin {
+		return "C15/status-differs-from-the-origins", fmt.Sprintf("the origin answered %d; the client received %d through the chain (and %d through the same chain without gzip)", origin, with.Status, without.Status)
+	}
 	if with.Err != "" {
 		return "C15/response-unreadable", "a strict client cannot read the response: " + with.Err
 	}
@@ -477,7 +497,7 @@ func c15Cases(th bool) []c15Case {
 		}
 	}
 	// an interim (1xx) response before the final one
-	for _, pos := range []string{"gzip", "logging,gzip", "size_limit,gzip"} {
+	for _, pos := range []string{"gzip", "logging,gzip", "size_limit,gzip", "gzip,headers", "gzip,logging", "logging,size_limit,gzip,headers"} {
 		for _, sz := range []int{0, 65, 5000} {
 			for _, st := range []int{0, 200, 404, 204} {
 				if st == 204 && sz != 0 {
